@@ -70,6 +70,9 @@ def match_expr(m, a, path, diffs):
         elif kind in ('int', 'float'):
             if isinstance(v, bool) or not isinstance(v, (int, float)) or not _num_eq(num_value(text), v):
                 bad(f'expected number {text}, got {v!r}')
+            elif isinstance(v, float) != (kind == 'float'):
+                # an integer numeral denotes an int and a numeral with '.', or an exponent a float (2 is not 2.0: they print differently)
+                bad(f'expected the {kind} {text}, got the {type(v).__name__} {v!r}')
         else:
             # the stored value must be the lexeme or its unquoted / unescaped content
             if not isinstance(v, str) or v not in (text, text[1:-1], unquote(text)):
